@@ -105,7 +105,7 @@ std::string gen_bytes(Src &s, size_t maxlen, bool nul_free) {
     return r;
 }
 
-void check_query(Src &s, Ctx &c) {
+Job gen_query(Src &s, Ctx &c, bool *nontriv) {
     size_t np = (size_t)s.range(0, 12);
     char eq = '=', sep = s.boolean() ? '&' : ';';
     std::vector<std::pair<std::string, std::string>> pairs;
@@ -122,21 +122,22 @@ void check_query(Src &s, Ctx &c) {
         free(en); free(ev);
     }
     c.op("qparse_queries(%zu pairs, sep='%c', %zu bytes)", np, sep, q.size());
-    if (np == 1 && pairs[0].first.empty() && pairs[0].second.empty()) { /* "=" : one empty pair */ }
-    int cnt = -7;
-    CStr qb(q);
-    qlisttbl_t *t = qparse_queries(nullptr, qb.p, eq, sep, &cnt);
-    if (!t) c.fail(FUNC, "encode:query-null", "qparse_queries returned NULL");
-    struct G { qlisttbl_t *t; ~G() { qlisttbl_free(t); } } g{t};
-    if (cnt != (int)np) c.fail(FUNC, "encode:query-count", "qparse_queries reports %d entries, the query was assembled from %zu pairs: %s", cnt, np, hexs(q, 80).c_str());
-    size_t i = 0;
-    for (qlisttbl_obj_t *o = t->first; o; o = o->next, i++) {
-        if (i >= np) c.fail(FUNC, "encode:query-pairs", "more entries than pairs");
-        if (pairs[i].first != o->name || o->size != pairs[i].second.size() + 1 || memcmp(o->data, pairs[i].second.c_str(), o->size) != 0)
-            c.fail(FUNC, "encode:query-pairs", "entry %zu is (%s,%s), the query was built from (%s,%s)", i, hexs(o->name, strlen(o->name)).c_str(), hexs(o->data, o->size).c_str(), hexs(pairs[i].first).c_str(), hexs(pairs[i].second).c_str());
-    }
-    if (i != np) c.fail(FUNC, "encode:query-pairs", "parsed %zu entries from %zu pairs", i, np);
-    if (np >= 2) c.nontrivial = true;
+    *nontriv = np >= 2;
+    return [pairs, q, eq, sep, np](Ctx &c) {
+        int cnt = -7;
+        CStr qb(q);
+        qlisttbl_t *t = qparse_queries(nullptr, qb.p, eq, sep, &cnt);
+        if (!t) c.fail(FUNC, "encode:query-null", "qparse_queries returned NULL");
+        struct G { qlisttbl_t *t; ~G() { qlisttbl_free(t); } } g{t};
+        if (cnt != (int)np) c.fail(FUNC, "encode:query-count", "qparse_queries reports %d entries, the query was assembled from %zu pairs: %s", cnt, np, hexs(q, 80).c_str());
+        size_t i = 0;
+        for (qlisttbl_obj_t *o = t->first; o; o = o->next, i++) {
+            if (i >= np) c.fail(FUNC, "encode:query-pairs", "more entries than pairs");
+            if (pairs[i].first != o->name || o->size != pairs[i].second.size() + 1 || memcmp(o->data, pairs[i].second.c_str(), o->size) != 0)
+                c.fail(FUNC, "encode:query-pairs", "entry %zu is (%s,%s), the query was built from (%s,%s)", i, hexs(o->name, strlen(o->name)).c_str(), hexs(o->data, o->size).c_str(), hexs(pairs[i].first).c_str(), hexs(pairs[i].second).c_str());
+        }
+        if (i != np) c.fail(FUNC, "encode:query-pairs", "parsed %zu entries from %zu pairs", i, np);
+    };
 }
 }  // namespace
 
@@ -157,6 +158,7 @@ void run_case(Src &s, Ctx &c) {
         for (size_t i = 0; i < nth; i++) {
             int nj = (int)s.range(1, 3);
             for (int j = 0; j < nj; j++) {
+                if (s.chance(1, 3)) { bool nt2 = false; c.op("thread %zu:", i); jobs[i].push_back(gen_query(s, c, &nt2)); continue; }
                 std::string x = gen_bytes(s, 1024, false); int k = (int)s.range(0, 2);
                 c.op("thread %zu: %s round trip + format, %zu bytes: %s", i, k == 0 ? "url" : k == 1 ? "base64" : "hex", x.size(), hexs(x, 16).c_str());
                 jobs[i].push_back([x, k](Ctx &q) { if (k == 0) check_url(q, x); else if (k == 1) check_b64(q, x); else check_hex(q, x); });
@@ -169,7 +171,15 @@ void run_case(Src &s, Ctx &c) {
         return;
     }
     int tgt = (int)s.pick({3, 3, 3, 3});
-    if (tgt == 3) { check_query(s, c); c.tag("query"); return; }
+    if (tgt == 3) {
+        bool nt2 = false; Job j = gen_query(s, c, &nt2);
+        // the caller may be in the middle of its own strtok() loop (e.g. splitting a line of queries):
+        // the parser must not disturb that hidden libc state
+        char sbuf[] = "one two three"; char *t1 = strtok(sbuf, " "); (void)t1;
+        j(c);
+        char *t2 = strtok(nullptr, " ");
+        if (!t2 || strcmp(t2, "two") != 0) c.fail(FUNC, "encode:query-clobbers-strtok", "after qparse_queries the caller's strtok(NULL) continues with %s instead of its own next token", t2 ? hexs(t2, strnlen(t2, 16)).c_str() : "NULL");
+        c.nontrivial = nt2; c.tag("query"); c.check_san("query parser"); return; }
     std::string x = gen_bytes(s, 4096, false);
     c.op("%s round trip + format, %zu bytes: %s", tgt == 0 ? "url" : tgt == 1 ? "base64" : "hex", x.size(), hexs(x, 16).c_str());
     if (tgt == 0) { check_url(c, x); c.tag("url"); bool esc = false; for (unsigned char ch : x) if (forbidden_literal(ch)) esc = true; c.nontrivial = esc; }
